@@ -375,6 +375,28 @@ def behavioural_handler_facts(M, notes):
                             ok = False
                             notes.append(f"input {src[:12]!r}/{pw}: {type(e).__name__} escaped metabolize")
                         m.repair(100.0)
+        # engines without a usable timeout (0 at construction; the public attribute set to 0 / 0.0 / None later): the
+        # bookkeeping of a SUCCESS divides by it — still a result, nothing escapes
+        with contextlib.redirect_stdout(io.StringIO()):
+            for silent in (True, False):
+                for how in ("ctor0", "ctor0.0", 0, 0.0, None):
+                    try:
+                        m = cls(timeout_seconds=(0 if how == "ctor0" else 0.0), silent=silent) if isinstance(how, str) \
+                            else cls(silent=silent)
+                        m.register_function("okt", lambda *a, **k: 1)
+                        if not isinstance(how, str):
+                            m.metabolize("1 + 1")
+                            m.timeout = how
+                        for (src, pw) in (("1 + 1", None), ("1 + 1", P.GLYCOLYSIS), ("1 < 2", None), ("true", P.KREBS_CYCLE),
+                                          ("[1, 2]", None), ("okt()", None), ("okt(1)", P.OXIDATIVE), ("zz", None)):
+                            r = m.metabolize(src, pw)
+                            if not isinstance(r, Result):
+                                ok = False
+                        if not isinstance(m.digest_glucose("2 + 2"), str):
+                            ok = False
+                    except BaseException as e:  # noqa
+                        ok = False
+                        notes.append(f"timeout {how!r}: {type(e).__name__} escaped the engine on a successful evaluation")
         out["dispatch"] = ok
 
         # a console that refuses to print (lone surrogate on a strict UTF-8 console, closed pipe)
